@@ -11,9 +11,9 @@ let rec parse (tk : string array) (k : int ref) : tree =
   let assoc =
     if pos = [] then []
     else begin
-      let a = Array.make 127 0 in
+      let a = Array.make 256 0 in
       let rec fill = function
-        | c :: v :: r -> (if c >= 0 && c < 127 then a.(c) <- v); fill r
+        | c :: v :: r -> (if c >= 0 && c < 256 then a.(c) <- v); fill r
         | _ -> () in
       fill sparse; Array.to_list a
     end in
